@@ -158,40 +158,41 @@ def accuracy(V, ctx, cfg, hypot_lines, seed):
     from fractions import Fraction
     from . import fxdev
     from .fxnum import Unsupported, _sqrt_frac
+    from fxai import pipeline as P
     import math
     r = ctx.run("w_hypot", [("i", 0, T47), ("i", 0, T47)])
     T30 = 1 << 30
     REL = Fraction(15, 100000)
-    ncell = nskip = 0
+    ncell = nskip = ngen = 0
     worst_abs = worst_rel = None
-    fails = []
+    fails = []          # (cell, path, why, definite)
     tiny = {}
     memo = {}
-    from fxai import pipeline as P
+    xs, ys = sym(0), sym(1)
     target = fxdev.Poly.var(0, 2).mul(fxdev.Poly.var(0, 2)).add(fxdev.Poly.var(1, 2).mul(fxdev.Poly.var(1, 2)))
     for p in r.paths:
         st = p.state
         box = [st.bounds["p0"], st.bounds["p1"]]
         wraps_here = any(n[0] == "uwrap" and n[1] in hypot_lines for n in st.notes)
-        # exact-real value on the whole path box: must be sqrt(a^2 + b^2) identically
+        npts = (box[0][1] - box[0][0] + 1) * (box[1][1] - box[1][0] + 1)
+        # exact-real value on the path: ex >= 0 with ex^2 a polynomial; R = ex^2 - (a^2 + b^2) is the method error in squared form
+        R = None
+        why = ""
         try:
             ex, _ = fxdev.path_dev(p.ret, 2, box)
-            ident = None
-            if isinstance(ex, fxdev.SqrtOf):
-                d = ex.p.scale(ex.c * ex.c).add(target.scale(-1))
+            if isinstance(ex, fxdev.SqrtOf) and ex.c >= 0:
+                R = ex.p.scale(ex.c * ex.c).add(target.scale(-1))
+            elif isinstance(ex, fxdev.Poly) and ex.rng(box)[0] >= 0:
+                R = ex.mul(ex).add(target.scale(-1))
+            else:
+                why = "exact-real value %r is not a non-negative root or polynomial" % (ex,)
+            if R is not None:
                 for k in (0, 1):
                     if box[k][0] == box[k][1]:
-                        d = d.subst(k, box[k][0])
-                ident = d.is_zero() and ex.c >= 0
-            elif isinstance(ex, fxdev.Poly):
-                # a polynomial result: only acceptable where it is the exact root (e.g. the constant 0 at (0, 0))
-                lo_, hi_ = ex.rng(box)
-                tl, th = target.rng(box)
-                ident = lo_ == hi_ and tl == th and lo_ >= 0 and lo_ * lo_ == tl
+                        R = R.subst(k, box[k][0])
         except Unsupported as e:
-            ex, ident = None, str(e)
-        npts = (box[0][1] - box[0][0] + 1) * (box[1][1] - box[1][0] + 1)
-        if ident is not True and npts <= 256:
+            why = str(e)
+        if (R is None or not R.is_zero()) and npts <= 256:
             # a handful of tiny arguments, constant-folded by the engine: each point by constant propagation against the integer oracle
             for a in range(box[0][0], box[0][1] + 1):
                 for b in range(box[1][0], box[1][1] + 1):
@@ -208,58 +209,118 @@ def accuracy(V, ctx, cfg, hypot_lines, seed):
                     V.oblige(okp)
                     ncell += 1
                     if not okp:
-                        fails.append(([(a, a), (b, b)], p, "value at the argument pair not within 2 ulp by constant propagation"))
+                        fails.append(([(a, a), (b, b)], p, "value at the argument pair not within 2 ulp by constant propagation", False))
             continue
-        if ident is not True:
+        if R is None or not R.is_zero():
             if wraps_here:
                 nskip += 1        # the recorded finding: hypot's own addition wraps on this path
                 continue
-            V.oblige(False)
-            fails.append((box, p, "exact-real value is not sqrt(a^2+b^2): %s" % (ident if isinstance(ident, str) else repr(ex)[:120])))
-            continue
-        if isinstance(ex, fxdev.Poly):
-            V.oblige(True)
-            ncell += 1
-            continue
-        for ca in _cuts(*box[0]):
-            for cb in _cuts(*box[1]):
-                cell = [ca, cb]
-                small = ca[1] < T30 and cb[1] < T30
-                tmin = _sqrt_frac(Fraction(ca[0]) ** 2 + Fraction(cb[0]) ** 2, False)
-                mk = (p.ret.lin.key(), ca, cb)
-                if mk in memo:
-                    continue            # the same form on the same cell (another path of the same shape)
-                try:
-                    _, dv = fxdev.path_dev(p.ret, 2, cell)
-                    D = max(abs(dv[0]), abs(dv[1]))
-                    ok = D <= 2 if small else D <= REL * tmin
-                except Unsupported as e:
-                    D, ok = None, False
-                memo[mk] = ok
-                V.oblige(ok)
-                ncell += 1
-                if ok:
-                    if small:
-                        if worst_abs is None or D > worst_abs[0]:
-                            worst_abs = (D, cell)
-                    else:
-                        q = D / tmin
-                        if worst_rel is None or q > worst_rel[0]:
-                            worst_rel = (q, cell)
+            if R is None:
+                V.oblige(False)
+                fails.append((box, p, "exact-real value not available: %s" % why, False))
+                continue
+        general = not R.is_zero()
+        if general:
+            ngen += 1
+        def decide(ca, cb, depth):
+            """(status, D) for the cell: 'ok', 'skip' (not on the path / already done), 'definite', 'undecided'"""
+            cell = [ca, cb]
+            mk = (p.ret.lin.key(), ca, cb)
+            if mk in memo:
+                return "skip", None, None
+            if general and lib.feasible_with(st, [(xs, ca[0], ca[1]), (ys, cb[0], cb[1])]) is None:
+                memo[mk] = True
+                return "skip", None, None
+            small = ca[1] < T30 and cb[1] < T30
+            mixed = not small and (ca[0] < T30 and cb[0] < T30)      # straddles the regime boundary: judged by the stricter bound
+            tmin = _sqrt_frac(Fraction(ca[0]) ** 2 + Fraction(cb[0]) ** 2, False)
+            tmax = _sqrt_frac(Fraction(ca[1]) ** 2 + Fraction(cb[1]) ** 2, True)
+            allowed = Fraction(2) if small else (min(Fraction(2), REL * tmin) if mixed else REL * tmin)
+            definite = False
+            try:
+                ex_c, dv = fxdev.path_dev(p.ret, 2, cell)
+                D = max(abs(dv[0]), abs(dv[1]))
+                if general:
+                    rl, rh = R.rng(cell)
+                    el, eh = fxdev.Dev(2, cell).ex_rng(ex_c)
+                    rmin = Fraction(0) if rl <= 0 <= rh else min(abs(rl), abs(rh))
+                    rmax = max(abs(rl), abs(rh))
+                    dlo_ = el + tmin
+                    mhi = rmax / dlo_ if dlo_ > 0 else None
+                    mlo = rmin / (eh + tmax) if eh + tmax > 0 else Fraction(0)
+                    ok = mhi is not None and D + mhi <= allowed
+                    allowed_hi = max(Fraction(2), REL * tmax) if not small else Fraction(2)
+                    definite = mlo - D > allowed_hi
+                    D = D + mhi if mhi is not None else None
                 else:
-                    fails.append((cell, p, "deviation bound %s, allowed %s" % (None if D is None else float(D), 2 if small else float(REL * tmin))))
-    info = {"cells": ncell, "paths_with_wrapping_addition_excluded": nskip,
+                    ok = D <= allowed
+            except Unsupported as e:
+                D, ok = None, False
+            if ok:
+                memo[mk] = True
+                return "ok", D, (small, tmin)
+            if definite:
+                memo[mk] = False
+                return "definite", D, allowed
+            return "undecided", D, allowed
+
+        work = [(ca, cb, 0) for ca in _cuts(*box[0]) for cb in _cuts(*box[1])]
+        budget = 40000 if general else len(work)
+        while work:
+            ca, cb, depth = work.pop()
+            status, D, aux = decide(ca, cb, depth)
+            if status == "skip":
+                continue
+            ncell += 1
+            budget -= 1
+            if status == "ok":
+                V.oblige(True)
+                small, tmin = aux
+                if small:
+                    if worst_abs is None or D > worst_abs[0]:
+                        worst_abs = (D, [ca, cb])
+                elif tmin > 0:
+                    q = D / tmin
+                    if worst_rel is None or q > worst_rel[0]:
+                        worst_rel = (q, [ca, cb])
+                continue
+            if status == "definite":
+                V.oblige(False)
+                fails.append(([ca, cb], p, "error at least beyond the allowed %s on every argument pair of the cell that takes this path" % float(aux), True))
+                continue
+            # undecided: bisect the relatively wider side (general paths only: there the method error needs finer cells)
+            wa = (ca[1] + 1) / max(ca[0], 1)
+            wb = (cb[1] + 1) / max(cb[0], 1)
+            if general and depth < 40 and budget > 0 and (ca[0] < ca[1] or cb[0] < cb[1]):
+                if (wa >= wb and ca[0] < ca[1]) or cb[0] == cb[1]:
+                    m_ = math.isqrt(max(ca[0], 1) * (ca[1] + 1)) if ca[1] > 4 * max(ca[0], 1) else (ca[0] + ca[1]) // 2
+                    m_ = min(max(m_, ca[0]), ca[1] - 1)
+                    work.append(((ca[0], m_), cb, depth + 1))
+                    work.append(((m_ + 1, ca[1]), cb, depth + 1))
+                else:
+                    m_ = math.isqrt(max(cb[0], 1) * (cb[1] + 1)) if cb[1] > 4 * max(cb[0], 1) else (cb[0] + cb[1]) // 2
+                    m_ = min(max(m_, cb[0]), cb[1] - 1)
+                    work.append((ca, (cb[0], m_), depth + 1))
+                    work.append((ca, (m_ + 1, cb[1]), depth + 1))
+                ncell -= 1
+                continue
+            V.oblige(False)
+            fails.append(([ca, cb], p, "error bound %s, allowed %s" % (None if D is None else float(D), float(aux)), False))
+    info = {"cells": ncell, "paths_with_wrapping_addition_excluded": nskip, "paths_with_method_error": ngen,
             "worst_abs_deviation_small_operands": None if worst_abs is None else [float(worst_abs[0]), worst_abs[1]],
             "worst_relative_deviation": None if worst_rel is None else [float(worst_rel[0]), worst_rel[1]]}
     V.cover.setdefault("accuracy", {})[cfg] = info
     if ncell < 500:
         V.broke("w_hypot [%s]: only %d accuracy cells" % (cfg, ncell))
-    # failing cells: a concrete argument pair violating the clause makes it a violation, otherwise it stays undecided
+    # failing cells: a concrete argument pair violating the clause makes it a violation, otherwise it stays undecided;
+    # cells on which the violation is definite are tried first
     rnd = random.Random(seed)
-    reported = 0
-    for cell, p, why in fails[:30]:
+    fails.sort(key=lambda f: not f[3])
+    reported = False
+    ninc = 0
+    for cell, p, why, definite in fails[:60]:
         hit = None
-        for _ in range(300):
+        for _ in range(200):
             a = rnd.randint(*cell[0])
             b = rnd.randint(*cell[1])
             o = r.conc((a, b))
@@ -275,13 +336,13 @@ def accuracy(V, ctx, cfg, hypot_lines, seed):
             if bad:
                 hit = (a, b, o)
                 break
-        if hit and reported < 1:
-            reported += 1
-            V.violation("hypot within 2 ulp / relative 1.5e-4 of sqrt(a^2+b^2)", "hypot", "hypot(%d, %d) [%s] %s but sqrt(a^2+b^2) = %d.. (%s)" % (
-                hit[0], hit[1], cfg, lib.out_str(hit[2]), math.isqrt(hit[0] ** 2 + hit[1] ** 2), why), lib.rp(r, (hit[0], hit[1]), "hypot accuracy"))
-        elif not hit and reported < 1:
+        if hit:
+            if not reported:
+                reported = True
+                V.violation("hypot within 2 ulp / relative 1.5e-4 of sqrt(a^2+b^2)", "hypot", "hypot(%d, %d) [%s] %s but sqrt(a^2+b^2) = %d.. (%s)" % (
+                    hit[0], hit[1], cfg, lib.out_str(hit[2]), math.isqrt(hit[0] ** 2 + hit[1] ** 2), why), lib.rp(r, (hit[0], hit[1]), "hypot accuracy"))
+            break
+    if fails and not reported:
+        for cell, p, why, definite in fails[:5]:
             V.inconc("w_hypot [%s]: accuracy not proved on %s (%s) and no violating pair found" % (cfg, cell, why))
-            reported += 0
-            if len(V.inconclusive) > 6:
-                break
     return info
